@@ -779,6 +779,21 @@ func intrStrMapSameLen(kind string) intrinsic {
 			}
 			return []callRes{{st, e.strConst(strings.ToLower(cs))}}
 		}
+		// a string of concrete length whose bytes are all provably ASCII: exact per-byte mapping
+		if !e.IntMode {
+			if bs, ok := e.asciiBytes(st, s); ok {
+				vals := make([]*Term, len(bs))
+				for i, bt := range bs {
+					if kind == "tolower" {
+						vals[i] = c.Ite(c.And(c.ULe(c.BVu('A', 8), bt), c.ULe(bt, c.BVu('Z', 8))), c.Add(bt, c.BVu(32, 8)), bt)
+					} else {
+						vals[i] = c.Ite(c.And(c.ULe(c.BVu('a', 8), bt), c.ULe(bt, c.BVu('z', 8))), c.Sub(bt, c.BVu(32, 8)), bt)
+					}
+				}
+				cont := &ArrLit{Vals: vals, Rest: &ArrFill{Val: zeroOf(c, e.elemSort(types.Typ[types.Uint8]))}}
+				return []callRes{{st, &StringVal{C: cont, Off: e.idx(0), Len: e.idx(int64(len(vals)))}}}
+			}
+		}
 		nm := c.FreshName(kind)
 		l := c.Var(nm+".len", e.idxSort())
 		st.assume(e.lenFact(l))
@@ -1577,6 +1592,40 @@ func intrUTF16Encode(e *Exec, st *State, fr *Frame, args []Val, in ssa.Instructi
 			out = append(out, int64(u))
 		}
 		return []callRes{{st, e.constScalarSlice(st, types.Typ[types.Uint16], out, "utf16enc")}}
+	}
+	// code points of concrete count, all provably in [0, 0xD800): one code unit each (RFC 2781 2.1)
+	if s.Obj != 0 && s.Len.IsConst() && s.Off.IsConst() && s.Len.C.IsInt64() && s.Len.C.Int64() <= 256 {
+		av := e.sliceBacking(st, s)
+		n := int(s.Len.C.Int64())
+		rs := make([]*Term, n)
+		goal := e.C.True()
+		for i := range rs {
+			rs[i] = e.sel(av.C, e.C.Add(s.Off, e.idx(int64(i))))
+			if e.IntMode {
+				goal = e.C.And(goal, e.C.ILe(e.C.Inti(0), rs[i]), e.C.ILt(rs[i], e.C.Inti(0xD800)))
+			} else {
+				goal = e.C.And(goal, e.C.ULt(rs[i], e.C.BVu(0xD800, 32)))
+			}
+		}
+		if goal.IsTrue() || (!goal.IsFalse() && e.quickValid(st, goal)) {
+			es := e.elemSort(types.Typ[types.Uint16])
+			vals := make([]*Term, n)
+			for i, r := range rs {
+				if e.IntMode {
+					vals[i] = r
+				} else {
+					vals[i] = e.C.Extract(15, 0, r)
+				}
+			}
+			r := e.constScalarSlice(st, types.Typ[types.Uint16], make([]int64, n), "utf16enc")
+			if n > 0 {
+				rav := e.sliceBacking(st, r)
+				nav := *rav
+				nav.C = &ArrLit{Vals: vals, Rest: &ArrFill{Val: e.C.NumConst(big.NewInt(0), es)}}
+				st.Heap[r.Obj] = &nav
+			}
+			return []callRes{{st, r}}
+		}
 	}
 	out := e.freshSliceObj(st, types.Typ[types.Uint16], "utf16enc")
 	e.metaAll[out.Obj].Growable = false
